@@ -183,9 +183,24 @@ def rule_vacant(E, R):
         if not h:
             R.cannot(rule, fn, "anchor not found")
             continue
-        cs = [c for c in exprs(h["body"], "MethodCall") if norm(c.get("callee", "")) == SB + "::add_field_full"]
-        ok = len(cs) == 1 and is_lit(cs[0]["args"][2], opt) and is_param(cs[0]["args"][1], h, 2) and \
-            is_param(chain(cs[0]["args"][0])[0], h, 1)
+        # followed into the private registration helper: the FieldDefinition that is pushed onto `fields` is made of this
+        # function's name, its type and the literal flag (wherever the struct is put together)
+        S = sem.Sem(E, h)
+        pushes = [x for x in S.sites() if x.node.get("k") == "MethodCall" and x.node["m"] == "push" and _reg_field(x.node["recv"]) == "fields"]
+        ok = False
+        if len(pushes) == 1 and pushes[0].node.get("args"):
+            v = S.resolve(pushes[0].node["args"][0], pushes[0].frame)
+            st = sem.peel(v.node)
+            if st.get("k") == "Struct" and last_seg(norm(st["res"].get("path", ""))) == "FieldDefinition" and not st.get("base"):
+                fl = {f["name"]: f["e"] for f in st["fields"]}
+                ok = set(fl) == {"name", "ty", "optional"} and \
+                    lit_value(S.resolve(fl["optional"], v.frame).node) is opt and \
+                    sem.param_index(S, fl["ty"], v.frame) == 2 and \
+                    (sem.param_index(S, fl["name"], v.frame) == 1 or
+                     # the key handed back by the registry entry that was opened with the name
+                     any(x.node.get("k") == "MethodCall" and x.node["m"] == "entry" and _reg_field(x.node["recv"]) == "items" and
+                         sem.param_index(S, x.node["args"][0], x.frame) == 1 and sem.passes_through(S, fl["name"], v.frame, x.node)
+                         for x in S.sites()))
         R.check(ok, rule, fn, "registers (name, ty, optional=%s)" % str(opt).lower(), where=h["span"])
 
 
@@ -256,7 +271,9 @@ def rule_exact(E, R):
     hi = E.hir(fi)
     if not hi:
         return R.cannot(rule, fi, "anchor not found")
-    tw = [c for c in exprs(hi["body"], "Call") if norm(c.get("callee", "")) == "lex::take_while"]
+    S = sem.Sem(E, hi)
+    sites = S.sites()
+    tw = [x.node for x in sites if x.node.get("k") == "Call" and norm(x.node.get("callee", "")) == "lex::take_while"]
     pred_ok = False
     if len(tw) == 1:
         clo = closure_of(tw[0]["args"][2])
@@ -265,26 +282,30 @@ def rule_exact(E, R):
             lits = [x["lit"].get("v") for x in exprs(clo["body"], "Lit")]
             pred_ok = cs == ["core::char::methods::{impl char}::is_ascii_alphanumeric"] and lits == ["_"] and binops(clo["body"]).count("Or") == 1
     R.check(pred_ok, rule, fi, "an identifier segment is [A-Za-z0-9_]+", where=hi["span"])
-    dots = [c for c in exprs(hi["body"], "Call") if norm(c.get("callee", "")) == "lex::expect" and lit_value(c["args"][1]) == "."]
+    dots = [x for x in sites if x.node.get("k") == "Call" and norm(x.node.get("callee", "")) == "lex::expect" and lit_value(x.node["args"][1]) == "."]
     R.check(len(dots) == 1, rule, fi, "segments are joined by `.`", where=hi["span"])
-    look = [c for c in exprs(hi["body"], "MethodCall") if norm(c.get("callee", "")) == fn]
+    look_sites = [x for x in sites if x.node.get("k") == "MethodCall" and norm(x.node.get("callee", "")) == fn]
+    look = [x.node for x in look_sites]
     # the looked-up text is span(<copy of the input taken on entry>, <the cursor after the last segment>)
     name_ok = False
-    looked = let_init(hi["body"], local_name(look[0]["args"][0])) if len(look) == 1 and local_name(look[0]["args"][0]) else None
-    if looked is not None:
-        i = strip(looked)
+    if len(look) == 1:
+        v = S.resolve(look[0]["args"][0], look_sites[0].frame)
+        i = sem.peel(v.node)
+        if v.proj:
+            i, vf, rest = S.project(v.node, v.frame, v.proj)
+            i = sem.peel(i) if not rest else {}
+        else:
+            vf = v.frame
         if norm(i.get("callee", "")) == "lex::span" and len(i.get("args", [])) == 2:
             # span(<start of the text>, <cursor after the last segment>): both derive from the input parameter; the first is
             # never reassigned, the second is the variable the scanning loop advances
-            Si = sem.Sem(E, hi, inline=False)
-            a_b = Si.lookup(sem.peel(i["args"][0]), Si.root)
-            c_b = Si.lookup(sem.peel(i["args"][1]), Si.root)
+            a_b = S.lookup(sem.peel(i["args"][0]), vf)
+            c_b = S.lookup(sem.peel(i["args"][1]), vf)
             name_ok = a_b is not None and c_b is not None and a_b is not c_b and a_b.assigns == 0 and c_b.assigns > 0 and \
-                sem.param_index(Si, i["args"][0], Si.root, through_mut=True) == 0 and \
-                sem.param_index(Si, i["args"][1], Si.root, through_mut=True) == 0
+                sem.param_index(S, i["args"][0], vf, through_mut=True) == 0 and \
+                sem.param_index(S, i["args"][1], vf, through_mut=True) == 0
     R.check(len(look) == 1 and name_ok, rule, fi,
             "the whole maximal dotted run is looked up (no prefix fallback)", where=hi["span"])
-    S = sem.Sem(E, hi)
     oks = [x for x in S.result_leaves() if x.node.get("k") == "Call" and norm(x.node.get("callee", "")) == "core::result::Result::Ok"]
     good = bool(oks) and len(look) == 1
     for x in oks:
